@@ -226,6 +226,28 @@ def scForeignSched : List (Nat × Nat) :=
    (0, 0), (0, 0), (1, 0), (1, 0), (2, 0), (2, 0), (3, 0), (3, 0), (3, 0), (3, 0), (3, 0), (3, 0), (3, 0),
    (3, 0), (0, 0), (0, 0)]
 
+def scRejectRestartSched : List (Nat × Nat) :=
+  [(0, 0), (0, 0), (1, 0), (1, 0), (1, 0), (1, 0), (0, 0), (0, 0), (0, 0), (0, 0), (0, 0), (0, 0), (1, 0), (1, 0),
+   (1, 0), (1, 0), (1, 0), (1, 0), (1, 0), (1, 0), (0, 0), (0, 0), (0, 0), (0, 0), (0, 0), (0, 0), (0, 0), (0, 0),
+   (0, 0), (0, 0), (0, 0), (1, 0), (1, 0), (1, 0), (1, 1), (1, 1), (1, 1), (1, 1), (1, 1), (0, 0), (0, 0), (1, 0),
+   (1, 0), (1, 0), (1, 0), (0, 0), (0, 0), (0, 0), (0, 0), (0, 0), (0, 0), (1, 0), (1, 0), (1, 0), (1, 0), (1, 0),
+   (1, 0), (1, 0), (1, 0), (0, 0), (0, 0)]
+
+theorem C16_sched_reject_restart_example : scRejectRestart.sched = scRejectRestartSched := by decide
+
+/-- **A rejected `Submit` (silent, or panicking with `WithPanicOnSubmitAfterShutdown` and recovered by the caller)
+followed by a restart**: Start, Shutdown, wait, a Submit that is rejected, Start, a Submit that is accepted and run,
+Shutdown, wait — everything returns, one task rejected and never run, one run once, counter 0, no live goroutine, trace
+accepted.  The same life cycle is run on the real code with the panicking option and without it (`sched reject-restart`,
+`sched reject-restart-silent`) and must give this outcome.  Non-vacuity of `C16_shutdown_terminates` for histories with
+rejected submits before a restart. -/
+theorem C16_reject_restart_example :
+    let c := runSched (sys scRejectRestart.p) scRejectRestart.init scRejectRestartSched
+    stuckB scRejectRestart.p c = true ∧ clientsDone c = true ∧ c.1.pending = 0 ∧ wg c.1 = 0 ∧ c.1.running = false ∧
+      countPhase c.1 (· == .done) = 1 ∧ countPhase c.1 (· == .rejected) = 1 ∧ c.1.starts = 2 ∧ c.1.broken = false ∧
+      c.1.due = 0 ∧ traceOk false c.1.log = true := by
+  decide
+
 theorem C16_sched_haswork_example : scHasWork.sched = scHasWorkSched := by decide
 theorem C16_sched_foreign_example : scForeign.sched = scForeignSched := by decide
 theorem C16_sched_window_example : scWindow.sched = scWindowSched := by decide
